@@ -366,7 +366,7 @@ _kind = st.sampled_from(["float", "float", "dms", "ddm", "hpa", "deca", "gona"])
 _X = TR.point(1e7)
 _epoch = st.one_of(st.sampled_from([[2020, 1, 1], [1994, 1, 1], [2015, 1, 1], [2010, 1, 1], [2000, 2, 29], [2037, 7, 19]]),
                    st.tuples(st.integers(1980, 2060), st.integers(1, 12), st.integers(1, 28)).map(list))
-_vcv = st.one_of(st.none(), TR.psd3())
+_vcv = st.one_of(st.none(), TR.psd3(), TR.psd3_as_held())
 
 
 def _sd_names():
